@@ -161,6 +161,9 @@ func genFileCase(r *rng.R, fx []fixture) fileCase {
 		return fileCase{Kind: "json", Name: f.name, TextHex: hex.EncodeToString(f.data), Opts: randMask(r), NoOpts: r.Chance(1, 2)}
 	case pick < 66:
 		return fileCase{Kind: "gen", Seed: r.U64() | 1, Opts: randMask(r), NoOpts: r.Chance(1, 2)}
+	case pick < 69:
+		// the date and time fields given as RFC 3339 timestamps (FileCreationDateField / FileCreationTimeField accept them)
+		return fileCase{Kind: "gendates", Seed: r.U64() | 1, Opts: randMask(r), NoOpts: r.Chance(2, 3)}
 	case pick < 78:
 		return fileCase{Kind: "genmut", Seed: r.U64() | 1, Opts: randMask(r), NoOpts: r.Chance(2, 3)}
 	case pick < 84:
